@@ -420,6 +420,59 @@ func (s *c16State) dump() {
 	if strings.Join(got, " ") != strings.Join(want, " ") {
 		s.o.fail("table-content", map[string]any{"ops": append([]string{}, s.trace...), "table": got, "expected": want})
 	}
+	s.info()
+}
+
+// info: what ROATable.Info reports (records and prefixes per source and family — the figures behind
+// GetServers / ListRpki) against a recount of the plain set of records
+func (s *c16State) info() {
+	r4, p4 := s.rt.Info(bgp.RF_IPv4_UC)
+	r6, p6 := s.rt.Info(bgp.RF_IPv6_UC)
+	type cnt struct {
+		rec  [2]uint32
+		pfxs [2]map[string]bool
+	}
+	want := map[int]*cnt{}
+	for _, r := range s.truth {
+		c := want[r.src]
+		if c == nil {
+			c = &cnt{pfxs: [2]map[string]bool{{}, {}}}
+			want[r.src] = c
+		}
+		f := 0
+		if r.pfx.fam == 6 {
+			f = 1
+		}
+		c.rec[f]++
+		c.pfxs[f][r.pfx.p.String()] = true
+	}
+	parts := []string{"info"}
+	for src := 0; src < 3; src++ {
+		k := c16Src(src)
+		got := [4]uint32{r4[k], r6[k], p4[k], p6[k]}
+		parts = append(parts, fmt.Sprintf("%d:%d,%d,%d,%d", src, got[0], got[1], got[2], got[3]))
+		var exp [4]uint32
+		if c := want[src]; c != nil {
+			exp = [4]uint32{c.rec[0], c.rec[1], uint32(len(c.pfxs[0])), uint32(len(c.pfxs[1]))}
+		}
+		if got != exp {
+			s.o.fail("info-counters-differ-from-set", map[string]any{"ops": append([]string{}, s.trace...), "source": src,
+				"reported_records_v4_v6_prefixes_v4_v6": got, "recount": exp})
+		}
+		if exp[2]+exp[3] > 0 {
+			s.o.stat("info_checked_sources_with_records", 1)
+		}
+	}
+	// a source the table does not know must not be reported at all
+	for _, m := range []map[string]uint32{r4, p4, r6, p6} {
+		for k, v := range m {
+			var src int
+			if _, err := fmt.Sscanf(k, "c%d", &src); err != nil || src > 2 || (v == 0) {
+				s.o.fail("info-reports-unknown-source", map[string]any{"ops": append([]string{}, s.trace...), "key": k, "value": v})
+			}
+		}
+	}
+	s.o.ask(strings.Join(parts, " "), "tinfo 0 1 2")
 }
 
 func (s *c16State) validate(rt c16Route) {
@@ -566,6 +619,17 @@ func TestVerifC16(t *testing.T) {
 	// / ORIGIN / community actions between two conditions change nothing
 	s.chain(c16Chain{rt: c16Route{pfx: mk4("10.10.0.0/24"), localAS: 65500, hasAttr: true, segs: seqTo(65500), shape: "seq"},
 		split: []int{4}, stmts: []c16Stmt{{cond: 1, other: 1}, {cond: 1, other: 2}, {cond: 1, other: 3, prep: 2, rep: 1}, {cond: 1, other: 4, disp: 1}}})
+
+	// what Info reports: two sources under one prefix with interleaving entries have one prefix each
+	s.reset()
+	s.add(c16Rec{mk4("10.1.0.0/16"), 16, 100, 0})
+	s.add(c16Rec{mk4("10.1.0.0/16"), 24, 100, 0})
+	s.add(c16Rec{mk4("10.1.0.0/16"), 20, 100, 1})
+	s.dump()
+	s.del(c16Rec{mk4("10.1.0.0/16"), 20, 100, 1}) // the bucket stays, the source is gone from it
+	s.dump()
+	s.delAll(0) // … and now the empty bucket goes
+	s.dump()
 
 	// ---- generated histories ----
 	cases := 4000
